@@ -55,6 +55,9 @@ def coerced_before(fn, name, use, typ):
 
 def check(ctx):
     repo = ctx.repo
+    from . import generic
+    generic.wrapper_must_call(ctx, [f for f in generic.module_functions(repo, "dataiter.deco")],
+                              "append / extend / insert / + return the receiver's items followed by the argument's")
     for r, t in (("SIB-12", "filter/filter_out: same extraction, complementary tests, single pass"),
                  ("SIB-3", "head/tail/sample clamp n"), ("GRD-negslice", "no negated slice bound that can be 0"),
                  ("MPT-4", "insert delivers the item on every path"),
@@ -240,6 +243,56 @@ def check(ctx):
            "a key is filled in only when it is absent from the item" if ok else
            "fill_missing_keys writes keys that are present (e.g. present with value None): it changes entries it must leave alone",
            clause="fill_missing_keys change only the named keys of the items concerned")
+    # every item handed on has been through the fill loop (or is known to lack none of the keys)
+    ctx.rule("KEY-all", "fill_missing_keys yields an item only after the loop that fills its missing keys, or under a test that "
+                        "none of the keys is missing from it")
+    from ..cfg import cfg_of as _cfg_of
+    from ..forms import expand as _expand
+    if lp_fm and stores:
+        cfg_fm = _cfg_of(fm)
+        inner = None
+        cur = fm.module.parent.get(stores[0])
+        while cur is not None and cur is not lp_fm[0]:
+            if isinstance(cur, ast.For):
+                inner = cur
+            cur = fm.module.parent.get(cur)
+        ys_fm = [n for n in ast.walk(lp_fm[0]) if isinstance(n, ast.Yield)]
+        if inner is None or not ys_fm:
+            raise AnalysisError(f"{fm.qualname}: no per-key fill loop inside the loop over the items, or no yield of the item")
+        head, fill = cfg_fm.of_stmt.get(lp_fm[0]), cfg_fm.of_stmt.get(inner)
+        for y in ys_fm:
+            tgt = cfg_fm.node_of(y, fm.module.parent)
+            prev = {head.id: None}
+            stack = [head]
+            found = None
+            while stack and found is None:
+                nd = stack.pop()
+                for s_, lab in nd.succ:
+                    if s_.id in prev or s_ is fill or s_ is cfg_fm.exit:
+                        continue
+                    prev[s_.id] = (nd, lab)
+                    if s_ is tgt:
+                        found = s_
+                        break
+                    stack.append(s_)
+            tests = []
+            cur_ = found
+            while cur_ is not None and prev.get(cur_.id) is not None:
+                p_, lab = prev[cur_.id]
+                if p_.kind == "test" and p_.ast is not None and lab in ("T", "F"):
+                    tests.append((lab, p_.ast))
+                cur_ = p_
+            def _nothing_missing(lab, t):
+                txt = norm(_expand(fm, t, t))
+                return (f" in {itn}" in txt or f"<= {itn}.keys()" in txt or f"issubset({itn}" in txt) and \
+                    ((lab == "T" and ("all(" in txt or "<=" in txt or "issubset" in txt or txt.startswith("not "))) or
+                     (lab == "F" and ("any(" in txt or (f"not in {itn}" in txt and not txt.startswith("not ")))))
+            ok = found is None or any(_nothing_missing(lab, t) for lab, t in tests)
+            ctx.ob("KEY-all", fm, f"yield {norm(y.value) if y.value is not None else ''} after the fill loop", y, ok,
+                   "the item is handed on only after every named key was looked at" if ok else
+                   f"an item can be handed on without passing the fill loop (under {[(l, norm(t)) for l, t in tests][:2]}): that test does "
+                   f"not establish that none of the named keys is missing, so an item keeps lacking a key it was to receive",
+                   clause="fill_missing_keys: every named key is present in every item afterwards")
     # ------------------------------------------------------------- ORD-sort
     srt = repo.fn(f"{LOD}.sort")
     calls = [c for f, c in calls_in(srt) if repo.dotted(f, c.func) == "builtins.sorted"]
@@ -256,7 +309,9 @@ def check(ctx):
                f"reverse={norm(rv) if rv is not None else None}: the direction is not (correctly) honoured",
                clause="stable ordering by the given keys and directions")
     loops = [n for n in ast.walk(srt.node) if isinstance(n, ast.For)]
-    ok = bool(loops) and (norm(loops[0].iter).endswith("[::-1]") or norm(loops[0].iter).startswith("reversed("))
+    from ..forms import expand as _expand_it
+    it_txt = norm(_expand_it(srt, loops[0].iter, loops[0])) if loops else ""
+    ok = bool(loops) and (it_txt.endswith("[::-1]") or it_txt.startswith("reversed("))
     ctx.ob("ORD-sort", srt, f"for key, dir in {norm(loops[0].iter) if loops else '?'}", loops[0] if loops else srt.node, ok,
            "one stable pass per key, least significant key first" if ok else
            "keys are processed in the given order: with multi-pass stable sorting the LAST pass is the primary key, so the key "
